@@ -163,11 +163,24 @@ Tagged(ev) ==
           IN IF allKnown /\ \E i \in mustY : cr[s][i] # "y"
              THEN Fail("C17_FirstRWGetsIt:" \o ToString(ev.view[CHOOSE i \in mustY : cr[s][i] # "y"]))
              ELSE IF allKnown /\ Cardinality(ys) # rcnt[s] THEN Fail("C17_CountAgrees")
-             ELSE /\ cv' = [cv EXCEPT ![s] = ev.view] /\ cmd' = [cmd EXCEPT ![s] = <<>>]
-                  /\ UNCHANGED <<cr, mb, rw, sid, nextid, rcnt, shown, owed, claim, pendsel, bad>>
-     ELSE /\ cv' = IF Len(cv[s]) = Len(ev.view) THEN [cv EXCEPT ![s] = ev.view] ELSE cv
-          /\ cmd' = [cmd EXCEPT ![s] = <<>>]
-          /\ UNCHANGED <<cr, mb, rw, sid, nextid, rcnt, shown, owed, claim, pendsel, bad>>
+             ELSE LET mine == {<<mb[s], ev.view[i], sid[s]>> : i \in ys} IN
+                  IF \E x \in mine : \E y \in shown : y[1] = x[1] /\ y[2] = x[2] /\ y[3] # x[3]
+                  THEN Fail("C17_AtMostOneRW")
+                  ELSE /\ cv' = [cv EXCEPT ![s] = ev.view] /\ cmd' = [cmd EXCEPT ![s] = <<>>]
+                       /\ shown' = shown \cup mine
+                       /\ UNCHANGED <<cr, mb, rw, sid, nextid, rcnt, owed, claim, pendsel, bad>>
+     ELSE \* the view is known now (glass box): credit what was shown \Recent at positions
+          \* whose UID the client had not been told (EXISTS + FETCH without UID)
+          LET ok == Len(cv[s]) = Len(ev.view) /\ Len(cr[s]) = Len(ev.view)
+              mine == IF ok /\ rw[s] /\ mb[s] # ""
+                      THEN {<<mb[s], ev.view[i], sid[s]>> : i \in {j \in 1..Len(ev.view) : cr[s][j] = "y"}}
+                      ELSE {}
+          IN IF \E x \in mine : \E y \in shown : y[1] = x[1] /\ y[2] = x[2] /\ y[3] # x[3]
+             THEN Fail("C17_AtMostOneRW")
+             ELSE /\ cv' = IF ok THEN [cv EXCEPT ![s] = ev.view] ELSE cv
+                  /\ shown' = shown \cup mine
+                  /\ cmd' = [cmd EXCEPT ![s] = <<>>]
+                  /\ UNCHANGED <<cr, mb, rw, sid, nextid, rcnt, owed, claim, pendsel, bad>>
 
 \* the connection ended: so did its selection
 Gone(ev) == /\ mb' = [mb EXCEPT ![ev.s] = ""] /\ rw' = [rw EXCEPT ![ev.s] = FALSE]
